@@ -41,6 +41,8 @@ impl<K> OrphanStats<K> {
         for hash in &self.orphaned_blobs {
             let blob_path = self.cas_inner.paths.cas_file_path(hash);
             {
+                #[cfg(feature = "verif")]
+                crate::verif::point("orphan.lock_I");
                 let intents = self.cas_inner.index.pending_intents.lock();
                 let state = self.cas_inner.index.read_state();
                 let still_referenced = state.contains_blob_hash(hash);
@@ -52,6 +54,8 @@ impl<K> OrphanStats<K> {
                     continue;
                 }
 
+                #[cfg(feature = "verif")]
+                crate::verif::point("orphan.unlink");
                 match std::fs::remove_file(&blob_path) {
                     Ok(_) => {
                         result.orphans_deleted += 1;
@@ -108,6 +112,8 @@ impl<K> OrphanStats<K> {
             let src_path = self.cas_inner.paths.cas_file_path(hash);
             let dst_path = quarantine_dir.join(hash.to_string());
             {
+                #[cfg(feature = "verif")]
+                crate::verif::point("orphan.lock_I");
                 let intents = self.cas_inner.index.pending_intents.lock();
                 let state = self.cas_inner.index.read_state();
                 let still_referenced = state.contains_blob_hash(hash);
@@ -119,6 +125,8 @@ impl<K> OrphanStats<K> {
                     continue;
                 }
 
+                #[cfg(feature = "verif")]
+                crate::verif::point("orphan.unlink");
                 match std::fs::rename(&src_path, &dst_path) {
                     Ok(_) => {
                         result.orphans_quarantined += 1;
@@ -147,6 +155,8 @@ impl<K> OrphanStats<K> {
             return Ok(false); // Not in orphan list
         }
         let blob_path = self.cas_inner.paths.cas_file_path(hash);
+        #[cfg(feature = "verif")]
+        crate::verif::point("orphan.lock_I");
         let intents = self.cas_inner.index.pending_intents.lock();
         let state = self.cas_inner.index.read_state();
         let still_referenced = state.contains_blob_hash(hash);
@@ -157,6 +167,8 @@ impl<K> OrphanStats<K> {
             return Ok(false);
         }
 
+        #[cfg(feature = "verif")]
+        crate::verif::point("orphan.unlink");
         match std::fs::remove_file(&blob_path) {
             Ok(_) => Ok(true),
             Err(e) if e.kind() == std::io::ErrorKind::NotFound => Ok(false),
